@@ -272,6 +272,23 @@ class Summaries:
                     yield st2, NONE
         A('Option::map', r'Option::map$', h_opt_map)
 
+        def h_opt_map_or(st, fn, callee, args, dty):
+            # Option::map_or(default, f) / map_or_else(default_fn, f) / is_some_and(f) / is_none_or(f)
+            k = norm(callee).rsplit('::', 1)[-1]
+            for st2, v in opt(st, args[0]):
+                if k in ('is_some_and', 'is_none_or'):
+                    if v.variant == 1:
+                        yield from I.call_callable(st2, args[1], [v.fields[0]])
+                    else:
+                        yield st2, (k == 'is_none_or')
+                elif v.variant == 1:
+                    yield from I.call_callable(st2, args[2], [v.fields[0]])
+                elif k == 'map_or':
+                    yield st2, args[1]
+                else:
+                    yield from I.call_callable(st2, args[1], [])
+        A('Option::map_or', r'Option::(map_or|map_or_else|is_some_and|is_none_or)$', h_opt_map_or)
+
         def h_opt_and_then(st, fn, callee, args, dty):
             for st2, v in opt(st, args[0]):
                 if v.variant == 1:
@@ -795,6 +812,14 @@ class Summaries:
 
         def h_vec_push(st, fn, callee, args, dty):
             v = I.load(st, args[0])
+            if isinstance(v, KeyV):
+                # a byte appended to a key built from to_be_bytes (pagination cursors)
+                b_ = args[1]
+                if not isinstance(b_, int):
+                    raise Gap('symbolic byte pushed onto a storage key')
+                I.store(st, args[0], KeyV(v.parts + (('b', bytes([b_])),)))
+                yield st, UNIT
+                return
             I.store(st, args[0], VecV(v.items + (args[1],), v.elem))
             yield st, UNIT
         A('Vec::push', r'Vec::push$', h_vec_push)
@@ -869,6 +894,8 @@ class Summaries:
         A('iter adaptor map', r' as Iterator>::map$', simple(lambda st, it, f: Iter('map', inner=it, f=f)))
         A('iter adaptor enumerate', r' as Iterator>::enumerate$', simple(lambda st, it: Iter('enum', inner=it, n=0)))
         A('iter adaptor take', r' as Iterator>::take$', simple(lambda st, it, n: Iter('take', inner=it, left=n)))
+        A('iter adaptor skip', r' as Iterator>::skip$', simple(lambda st, it, n: Iter('skip', inner=it, left=n)))
+        A('int from bool', r'<(u8|u16|u32|u64|u128|usize|i32|i64) as From<bool>>::from$', simple(lambda st, b: (int(b) if isinstance(b, bool) else z3.If(b, 1, 0))))
         A('iter adaptor filter', r' as Iterator>::filter$', simple(lambda st, it, f: Iter('filter', inner=it, f=f)))
 
         def h_next(st, fn, callee, args, dty):
@@ -1464,6 +1491,28 @@ class Summaries:
                     yield st2, it.set(inner=in2), item
                 else:
                     yield st2, it.set(inner=in2, n=it.n + 1), Agg('()', (it.n, item))
+            return
+        if k == 'skip':
+            if isinstance(it.left, int):
+                if it.left <= 0:
+                    for st2, in2, item in self.iter_next(st, it.inner):
+                        yield st2, it.set(inner=in2, left=0), item
+                    return
+                # drop one element, then continue with one less to skip
+                for st2, in2, item in self.iter_next(st, it.inner):
+                    if item is None or isinstance(item, Panic):
+                        yield st2, it.set(inner=in2), item
+                    else:
+                        yield from self.iter_next(st2, it.set(inner=in2, left=it.left - 1))
+                return
+            for st2, t in I.truth(st, it.left >= 1):
+                if t:
+                    for st3, t1 in I.truth(st2, it.left == 1):
+                        if not t1:
+                            raise Gap('skip(n) with a symbolic n that may exceed 1')
+                        yield from self.iter_next(st3, it.set(left=1))
+                else:
+                    yield from self.iter_next(st2, it.set(left=0))
             return
         if k == 'take':
             if isinstance(it.left, int) and it.left <= 0:
